@@ -125,13 +125,15 @@ Inductive item :=
 | IStr (s : list byte)             (* std::string / StringPiece / append(data, len): any bytes *)
 | IInt (t : ity) (v : Z)           (* short and unsigned short are widened to int / unsigned first: value kept *)
 | IPtr (p : Z)                     (* const void*, as uintptr_t *)
-| IDouble (d : Z).                 (* a double (float is widened first), identified by its 64 bits *)
+| IDouble (d : Z)                  (* a double (float is widened first), identified by its 64 bits *)
+| IFmt (s : list byte).            (* Fmt(fmt, val): the bytes its snprintf produced; the constructor asserts length < sizeof buf_ *)
 
 Definition item_ok (it : item) : bool :=
   match it with
   | IInt t v => (ity_lo t <=? v) && (v <? ity_hi t)
   | IPtr p => (0 <=? p) && (p <? 2 ^ 64)
   | IDouble d => (0 <=? d) && (d <? 2 ^ 64)
+  | IFmt s => Z.of_nat (length s) <? Fmt_buf_size         (* assert(size_t(length_) < sizeof buf_) *)
   | _ => true
   end.
 
@@ -141,7 +143,7 @@ Fixpoint until_nul (s : list byte) : list byte :=     (* strlen *)
   | c :: r => if Byte.eqb c x00 then [] else c :: until_nul r
   end.
 
-Definition null_text : list byte := [x28;x6e;x75;x6c;x6c;x29].   (* "(null)" *)
+Definition null_text : list byte := null_text_gen.   (* "(null)": the literal operator<<(const char* ) appends for NULL, regenerated *)
 
 Section Stream.
   (* snprintf("%.12g") of the double with these 64 bits: an oracle (glibc), DESIGN 3.4 *)
@@ -150,7 +152,7 @@ Section Stream.
   (* what the item contributes when it fits *)
   Definition item_text (it : item) : list byte :=
     match it with
-    | IBool v => [if v then x31 else x30]
+    | IBool v => if v then bool_true_text else bool_false_text     (* v ? "1" : "0", regenerated *)
     | IChar c => [c]
     | ICStr None => null_text
     | ICStr (Some s) => until_nul s
@@ -158,6 +160,7 @@ Section Stream.
     | IInt _ v => convert v
     | IPtr p => x30 :: x78 :: convertHex p
     | IDouble d => fmt_g d
+    | IFmt s => s
     end.
 
   Definition is_numeric (it : item) : bool :=
@@ -398,3 +401,104 @@ Fixpoint select (s : Z) (l : list (rung_test * rung_fmt)) : rung_fmt :=
 
 Definition formatSI (s : Z) : list byte := render (select s si_ladder) s.
 Definition formatIEC (s : Z) : list byte := render (select s iec_ladder) s.
+
+(* ---- snprintf("%.12g") of a binary64, LogStream.cc operator<<(double) ------------------------ *)
+
+(* the positive rational N/D against a power of ten *)
+Definition ge_pow10 (N D X : Z) : bool :=            (* 10^X <= N/D *)
+  if 0 <=? X then D * 10 ^ X <=? N else D <=? N * 10 ^ (- X).
+Definition dec_exp_ok (N D X : Z) : bool :=          (* 10^X <= N/D < 10^(X+1), X in the range of doubles *)
+  (-400 <=? X) && (X <=? 400) && ge_pow10 N D X && negb (ge_pow10 N D (X + 1)).
+(* first X >= lo with N/D < 10^(X+1) *)
+Fixpoint slow_exp (N D : Z) (fuel : nat) (lo : Z) : Z :=
+  match fuel with
+  | O => lo
+  | S f => if ge_pow10 N D (lo + 1) then slow_exp N D f (lo + 1) else lo
+  end.
+(* floor(log10 (N/D)): a candidate from the binary logarithms, accepted only if it checks;
+   otherwise (never, in fact) the plain search over the whole range of doubles *)
+Definition dec_exp (N D : Z) : Z :=
+  let b := Z.log2 N - Z.log2 D in
+  let X0 := b * 30103 / 100000 in
+  match find (dec_exp_ok N D) [X0; X0 - 1; X0 + 1; X0 - 2; X0 + 2] with
+  | Some X => X
+  | None => slow_exp N D 640 (-330)
+  end.
+
+(* x = N/D > 0 rounded to 12 significant decimal digits, ties to even: (k, X) with
+   10^11 <= k < 10^12 and value k * 10^(X-11) *)
+Definition round12 (N D : Z) : Z * Z :=
+  let X := dec_exp N D in
+  let s := 11 - X in
+  let k := if 0 <=? s then rne (N * 10 ^ s) D else rne N (D * 10 ^ (- s)) in
+  if k =? 10 ^ 12 then (10 ^ 11, X + 1) else (k, X).
+
+Fixpoint drop_zeros (l : list byte) : list byte :=   (* leading '0's *)
+  match l with c :: r => if Byte.eqb c x30 then drop_zeros r else l | [] => [] end.
+Definition strip0 (l : list byte) : list byte := rev (drop_zeros (rev l)).   (* trailing '0's *)
+Definition with_point (ip fr : list byte) : list byte := ip ++ (match fr with [] => [] | _ => x2e :: fr end).
+
+(* the %g rule with P = 12 (C11 7.21.6.1): style f with precision P-1-X if P > X >= -4, else
+   style e with precision P-1; trailing zeros and a bare decimal point removed *)
+Definition g12_text (k X : Z) : list byte :=
+  let ds := convert k in
+  if (-4 <=? X) && (X <? 12) then
+    if 0 <=? X then with_point (firstn (Z.to_nat (X + 1)) ds) (strip0 (skipn (Z.to_nat (X + 1)) ds))
+    else with_point [x30] (strip0 (repeat x30 (Z.to_nat (- X - 1)) ++ ds))
+  else with_point (firstn 1 ds) (strip0 (skipn 1 ds)) ++
+       [x65; if X <? 0 then x2d else x2b] ++ pad x30 2 (convert (Z.abs X)).
+
+Definition fmt_g12 (bits : Z) : list byte :=
+  let sign := if bits / 2 ^ 63 mod 2 =? 1 then [x2d] else [] in
+  let expo := bits / 2 ^ 52 mod 2 ^ 11 in
+  let frac := bits mod 2 ^ 52 in
+  sign ++
+  if expo =? 2047 then (if frac =? 0 then [x69; x6e; x66] else [x6e; x61; x6e])
+  else
+    let m := if expo =? 0 then frac else 2 ^ 52 + frac in
+    let e := if expo =? 0 then -1074 else expo - 1075 in
+    if m =? 0 then [x30]
+    else let N := if 0 <=? e then m * 2 ^ e else m in
+         let D := if 0 <=? e then 1 else 2 ^ (- e) in
+         let '(k, X) := round12 N D in g12_text k X.
+
+(* the stream with the %.12g text of the model *)
+Definition put12 := put fmt_g12.
+Definition run12 := run fmt_g12.
+Definition log_line12 := log_line fmt_g12.
+
+(* ---- CurrentThread's per-thread tid cache (CurrentThread.h/.cc, Thread.cc:31-50,118-125) ---------
+   cacheTid / tid as the code is; the atfork child handler afterFork is INTERPRETED from its regenerated
+   statement list (Gen_C17.afterFork_steps), its registration is the regenerated atfork_child_registered *)
+Record tidc := mkTidc { cachedTid : Z; tidString : list byte; tidStringLength : Z }.
+Definition tidc0 : tidc := mkTidc cachedTid_init (repeat x00 (Z.to_nat tid_string_size)) tidStringLength_init.
+(* cacheTid(): if (t_cachedTid == 0) { t_cachedTid = gettid(); t_tidStringLength = snprintf(t_tidString, sizeof .., tid_format, t_cachedTid); } *)
+Definition cacheTid (k : Z) (c : tidc) : tidc :=
+  if cachedTid c =? 0
+  then let s := mini_printf tid_format [k] in mkTidc k (firstn (Z.to_nat tid_string_size - 1) s) (Z.of_nat (length s))
+  else c.
+(* tid(): if (t_cachedTid == 0) cacheTid(); *)
+Definition tid_call (k : Z) (c : tidc) : tidc := if cachedTid c =? 0 then cacheTid k c else c.
+Definition af_step_run (k : Z) (c : tidc) (st : af_step) : tidc :=
+  match st with
+  | AfZeroTid => mkTidc 0 (tidString c) (tidStringLength c)
+  | AfSetTid => mkTidc k (tidString c) (tidStringLength c)
+  | AfCallTid => tid_call k c
+  | AfCacheTid => cacheTid k c
+  | AfOther => c
+  end.
+(* the child handler registered with pthread_atfork, run in the forked child (kernel tid k) *)
+Definition after_fork (k : Z) (c : tidc) : tidc := fold_left (af_step_run k) afterFork_steps c.
+(* Logger::Impl::Impl: CurrentThread::tid(); stream_ << T(tidString(), tidStringLength()) *)
+Definition logged_tid (k : Z) (c : tidc) : tidc * list byte :=
+  let c' := tid_call k c in (c', firstn (Z.to_nat (tidStringLength c')) (tidString c')).
+(* the life of one thread's thread-local state: it logs; it forks and we follow the child (TLS copied,
+   new kernel tid, atfork child handler); it starts a thread and we follow that thread (fresh TLS) *)
+Inductive hop := HLog | HFork (k' : Z) | HSpawn (k' : Z).
+Fixpoint lineage (k : Z) (c : tidc) (h : list hop) : list (Z * list byte) :=
+  match h with
+  | [] => []
+  | HLog :: r => (k, snd (logged_tid k c)) :: lineage k (fst (logged_tid k c)) r
+  | HFork k' :: r => lineage k' (if atfork_child_registered then after_fork k' c else c) r
+  | HSpawn k' :: r => lineage k' tidc0 r
+  end.
